@@ -58,6 +58,19 @@ chk("C13", "exhaustive enumeration of all token strings up to a length bound + t
     "(i) every concatenation of <=5/6 tokens over a 22-token YAML/pipeline alphabet (5.4M / 118M strings); (ii) every generated document (<=1/2 deviations) and two base documents with each node replaced by each of 12 values, plus the un-injected documents: Parse must return without panic / fatal crash / hang, with a hard error or a pipeline (+warning); if usable: non-nil steps, one non-nil step per input entry (independent node-graph walk), recursively in groups, unknown steps verbatim, warning leaves >= unknown steps, JSON and YAML marshalling succeed.",
     "'Any byte sequence' only within the token alphabet / injection grammar; .inf/.nan JSON marshalling is a listed known finding.", "DESIGN.md §3 C13")
 
+chk("C06", "exhaustive enumeration of all step forests up to a node bound on the real SignSteps",
+    "Every ordered forest of <=5/7 nodes over {command, other known step, unknown, group} (groups nested to depth 4) with rotating step-env variants and five pipeline envs is signed by the real SignSteps with all four key kinds (EdDSA everywhere): unknown anywhere => error; else every command step at every depth signed, verifying, key's algorithm, exact sorted field list (5 mandatory + env::N not shadowed); deep snapshot/JSON of the steps minus signatures and of the caller's env map unchanged.",
+    "Node bound; nothing asserted about partial signing on refusal.", "DESIGN.md §3 C06")
+chk("C01", "explicit-state BFS over a mutation graph of signed states on the real Verify vs. independent canonical semantic form",
+    "From four signed initial states every single-point mutation at every position of the signed step JSON, the verification env, the repository URL, the signature record and the key is a transition; BFS to depth 2 (EdDSA; 1-2 for ES512, PS512, ES256 crypto.Signer), states deduplicated on the whole state; in every state Verify==nil must hold exactly when the harness's canonical form equals the signed one, the record is original and the key is the signing key (so semantic changes must fail, neutral re-spellings and reverts must pass).",
+    "Cryptography black box; field-list permutation and base64 padding variants not generated; canonical form is the harness's reading of the statement.", "DESIGN.md §3 C01")
+chk("C14", "explicit-state BFS over the same mutation graph recording the library's payload bytes, class consistency by hash map, all map orders via seam",
+    "Payload bytes logged by Sign and Verify for every state of the depth-2 mutation graph over (step, pipeline env, repository URL, algorithm) incl. boundary shifts between adjacent fields, key/value, name/value, step-env vs pipeline-env: one byte string per canonical content class (must-collide), pairwise distinct across classes (must-differ), Sign payload == Verify payload, field list sorted; every order of Sign/Verify's map loops explored through the seam.",
+    "Payload observed through WithDebugSigning; canonical form as C01.", "DESIGN.md §3 C14")
+chk("C02", "stateless choice-DFS over documents + string alphabet on signed positions + seam, full sign->marshal->re-parse->verify lifecycle on the real code",
+    "Generated documents (signed-field shorthands open, <=1/2 deviations), all key kinds with/without interpolation on the <=1-deviation slice, the C09 string alphabet at every signed string position: Parse -> [Interpolate] -> SignSteps -> JSON and YAML -> Parse / CommandStep.UnmarshalJSON -> Verify of every command step with the signed pipeline env and with the re-parsed one, + unrelated variables; sign+marshal under explored map iteration orders.",
+    "YAML-leg string exclusions as C09; cryptography black box.", "DESIGN.md §3 C02")
+
 ALL = [f"C{i:02d}" for i in range(1,20)]
 NA_REASON = {}
 man = dict(version=1, setup_cmd="./setup.sh",
